@@ -1,7 +1,7 @@
 (* C10 model: pallas-crypto/src/hash/{hasher,hash}.rs and nonce/mod.rs, transcribed
    over the streaming BLAKE2b context of Crypto/Blake2b.v.  Definitions only.
    Bytes are Z in [0,256); strings are lists of their UTF-8 bytes. *)
-From PV Require Import Lib.Base Crypto.Blake2b.
+From PV Require Import Lib.Base Crypto.Hex Crypto.Blake2b.
 Open Scope Z_scope.
 
 (* ---- hasher.rs: Hasher<BITS>(Blake2b), n = BITS / 8 ---- *)
